@@ -135,7 +135,7 @@ def run(ctx):
                 lambda v: spec_rows(v), 3, BOX, py=py, cell_names=CELLS, fd_step=0.05, tol=1e-6)
 
     # ---- schema ---------------------------------------------------------------------------------
-    _schema(ctx, py)
+    ctx.guard(_schema, ctx, py)
 
 
 def _schema(ctx, py):
